@@ -179,6 +179,26 @@ Definition parse_params (s0 : str) : option qparams :=
     else None
   end.
 
+(* ---------- printing query parameters (specification side of the round trip) ---------- *)
+Definition print_kv (kv : str * str) : str := fst kv ++ eqc :: snd kv.
+Fixpoint join_amp (l : list str) : str :=
+  match l with
+  | [] => []
+  | [x] => x
+  | x :: r => x ++ amp :: join_amp r
+  end.
+Definition print_kvs (kvs : list (str * str)) : str := join_amp (map print_kv kvs).
+Definition wf_kv (kv : str * str) : bool := seg_ok is_comp_char (fst kv) && seg_ok is_val_char (snd kv).
+(* the parameter lists NewQueryParameters accepts *)
+Definition wf_kvs (kvs : list (str * str)) : bool :=
+  nonempty kvs && forallb wf_kv kvs && keys_nodup kvs &&
+  match assoc k_process kvs with Some v => match parse_bool v with Some _ => true | None => false end | None => true end.
+Definition params_of (kvs : list (str * str)) : qparams :=
+  mkParams (match assoc k_process kvs with
+            | Some v => match parse_bool v with Some b => b | None => true end
+            | None => true end)
+           (filter (fun kv => negb (str_eqb (fst kv) k_process)) kvs).
+
 (* ---------- payload templating, fragment: literal text and {{ name }} ---------- *)
 Inductive tpiece := TLit (s : str) | TVar (name : str).
 
@@ -270,6 +290,15 @@ Definition mon20 (c : c20_case) : N :=
     | None, Some _ => 4
     | None, None => 0
     end
+  | CParams s (Some (_, vars)) =>
+    (* accepted parameters spell exactly the non-"process" items of the input: code 6 *)
+    let items := split_all amp (trim s) in
+    let printed := map print_kv vars in
+    let is_process (it : str) := match split_at eqc it with (k, _) => str_eqb k k_process end in
+    if existsb (fun kv => str_eqb (fst kv) k_process) vars then 6
+    else if negb (forallb (fun p => mem_str p items) printed) then 6
+    else if negb (forallb (fun it => is_process it || mem_str it printed) items) then 6
+    else 0
   | _ => 0
   end.
 
@@ -291,22 +320,3 @@ Definition tag20 (c : c20_case) : N :=
 
 Definition report20 := report corr20 mon20 tag20.
 
-(* ---------- printing query parameters (specification side of the round trip) ---------- *)
-Definition print_kv (kv : str * str) : str := fst kv ++ eqc :: snd kv.
-Fixpoint join_amp (l : list str) : str :=
-  match l with
-  | [] => []
-  | [x] => x
-  | x :: r => x ++ amp :: join_amp r
-  end.
-Definition print_kvs (kvs : list (str * str)) : str := join_amp (map print_kv kvs).
-Definition wf_kv (kv : str * str) : bool := seg_ok is_comp_char (fst kv) && seg_ok is_val_char (snd kv).
-(* the parameter lists NewQueryParameters accepts *)
-Definition wf_kvs (kvs : list (str * str)) : bool :=
-  nonempty kvs && forallb wf_kv kvs && keys_nodup kvs &&
-  match assoc k_process kvs with Some v => match parse_bool v with Some _ => true | None => false end | None => true end.
-Definition params_of (kvs : list (str * str)) : qparams :=
-  mkParams (match assoc k_process kvs with
-            | Some v => match parse_bool v with Some b => b | None => true end
-            | None => true end)
-           (filter (fun kv => negb (str_eqb (fst kv) k_process)) kvs).
